@@ -519,3 +519,33 @@ func ruleArrayTranslateTotal(c *chk.Ctx) {
 		c.Undecided("PAIR.length", f, "element mapping", f.Pos(), "no element mapping found in the array translation")
 	}
 }
+
+// ruleConstantFormats: every printf-style call in the HTTP package that builds
+// wire bytes uses a constant format string (no request text spliced into it).
+func ruleConstantFormats(c *chk.Ctx) {
+	n := 0
+	for _, f := range pkgFuncs(c, c.M.JhttpPkg) {
+		ir.Instrs(f, func(ins ssa.Instruction) {
+			call, ok := ins.(*ssa.Call)
+			if !ok {
+				return
+			}
+			idx := -1
+			switch {
+			case ir.IsCallTo(&call.Call, "fmt.Sprintf", "fmt.Errorf"):
+				idx = 0
+			case ir.IsCallTo(&call.Call, "fmt.Appendf", "fmt.Fprintf"):
+				idx = 1
+			}
+			if idx < 0 {
+				return
+			}
+			n++
+			_, isConst := call.Call.Args[idx].(*ssa.Const)
+			c.Check(isConst, "PROV.format", f, "constant format string", call.Pos(), "the format string is a constant", "a format string is assembled from run-time text (e.g. the caller's id): a '%' in that text corrupts the JSON the bridge writes")
+		})
+	}
+	if n == 0 {
+		c.Undecided("PROV.format", nil, "format strings", 0, "no printf-style call found in the HTTP package")
+	}
+}
